@@ -294,7 +294,20 @@ def run(a, res):
             nspec = len(q["specs"])
             feat = [min(L, 70000) // 4096, L == 0, nspec, len(sat), tuple(sorted({s[0] for s in q["specs"]})),
                     "hit" if hit else ("fwd-range" if fwd_range else "fetched-whole"), c["rol_none"], c["origin_framing"] if not hit else "-"]
+            def head_only_judgement():
+                """a 206 whose body never completes can still be judged on what its header promises"""
+                if m.start is None or m.error or m.status != 206 or L == 0:
+                    return
+                crs = m.header_all("Content-Range")
+                mm = CR_RE.match(crs[0]) if len(crs) == 1 else None
+                if mm:
+                    s_, e_, tot_ = int(mm.group(1)), int(mm.group(2)), int(mm.group(3))
+                    if tot_ != L or not (0 <= s_ <= e_ < L):
+                        res.violation("content-range-inconsistent", f"Range: {q['hdr']} on object of {L} bytes ({'hit' if hit else 'miss'}): 206 header says bytes {s_}-{e_}/{tot_} "
+                                      f"(Content-Length {m.header('Content-Length')}); the body never completed ({len(m.body)} bytes received)", wit)
+
             if m.start is None or m.error or m.timed_out:
+                head_only_judgement()
                 res.count("no_or_bad_response")
                 if m.error:
                     res.violation("client-bytes-invalid-http", m.error + " raw=%r" % m.raw[:200], wit)
@@ -302,6 +315,7 @@ def run(a, res):
             res.count("range_requests")
             res.count("range_hits" if hit else "range_misses")
             if not m.complete:
+                head_only_judgement()
                 res.count("incomplete_response")
                 res.feature(*feat, m.status, "incomplete")
                 continue
